@@ -141,6 +141,18 @@ var c04Funcs = []string{
 	"func outer() {y = g1; func inner(a) {a + g1}; inner}",
 	"func outer2(N) {func inner2(a) {a * N}; inner2(3)}",
 	"callsq = a => sq(a) * 2",
+	// a function that re-binds a function valued global, functions that differ only by name and show it through self,
+	// results that hold closures or large (in place updated) containers, log(), drawing on a named image
+	"func rebind(x) {r = sq(x); sq = y => y * 2; r}",
+	"func nm1() {println(self); 1}",
+	"func nm2() {println(self); 1}",
+	"func counter(s) {c = s; [() => {c = c + 1; c}]}",
+	"func counterm(s) {c = s; {\"inc\": () => {c = c + 1; c}}}",
+	"func mkbig(n) {a = []; for i = n {a = a + [i]}; a}",
+	"func mkbigm(n) {m = {}; for i = n {m[i] = i}; m}",
+	"func lg(x) {log(\"hi\", x); x}",
+	"func tri(n) {image.move_to(\"ci\", 0, 0); image.line_to(\"ci\", 7, 0); image.line_to(\"ci\", 0, 7); image.close_path(\"ci\"); image.draw(\"ci\", [255, 0, 0]); n}",
+	"func px(n) {image.set(\"ci\", n, n, [0, 255, 0]); n}",
 }
 
 var c04Args = []string{"0", "1", "2", "3", "1.0", "0.0", "(-0.0)", "[0.0]", "[(-0.0)]", "\"a\"", "[1]", "[1,2,3,4,5,6,7,8,9]", "{\"k\":1}", "nil", "true"}
@@ -163,7 +175,7 @@ func (p c04) session(c *fw.Ctx) []string {
 	}
 	n := 10 + r.IntN(40)
 	for k := 0; k < n; k++ {
-		switch r.IntN(42) {
+		switch r.IntN(50) {
 		case 0:
 			in = append(in, "p1("+small()+", "+small()+")")
 		case 1:
@@ -251,6 +263,22 @@ func (p c04) session(c *fw.Ctx) []string {
 			in = append(in, calls...)
 		case 40:
 			in = append(in, "callsq("+small()+")", "twice(callsq, "+small()+")")
+		case 41:
+			k := small()
+			in = append(in, "ap2("+k+")", "for sq = [x => x * 2, x => x * 3] {println(ap2("+k+"))}", "ap2("+k+")", "for sq = 3 {}", "ap2("+k+")", "sq = x => x * x")
+		case 42:
+			in = append(in, "rebind(5)", "rebind(5)", "sq = x => x * x")
+		case 43:
+			in = append(in, "nm1()", "nm2()", "nm1()")
+		case 44:
+			in = append(in, "ca = counter(0)[0]; cb = counter(0)[0]; [ca(), ca(), cb()]", "cma = counterm(0).inc; cmb = counterm(0).inc; [cma(), cma(), cmb()]")
+		case 45:
+			in = append(in, "bb = mkbig(20); bb[0] = 99; [mkbig(20)[0], bb[0]]", "bm = mkbigm(9); bm[0] = 99; [mkbigm(9)[0], bm[0]]")
+		case 46:
+			in = append(in, "lg("+small()+")", "lg(1)", "lg(1)")
+		case 47:
+			in = append(in, "image.new(\"ci\", 8, 8); tri(1); p1 = image.png(\"ci\"); image.new(\"ci\", 8, 8); tri(1); p2 = image.png(\"ci\"); p1 == p2",
+				"image.new(\"ci\", 8, 8); px(1); q1 = image.png(\"ci\"); image.new(\"ci\", 8, 8); px(1); q2 = image.png(\"ci\"); q1 == q2")
 		default:
 			in = append(in, "w2("+small()+") + w3("+small()+")")
 		}
